@@ -234,6 +234,12 @@ func (it *Interp) call(f *frame, x *ssa.Call) AnyVal {
 		case "copy":
 			d, ok1 := it.get(f, c.Args[0]).(SliceV)
 			s, ok2 := it.get(f, c.Args[1]).(SliceV)
+			if ok1 && it.St.Objs[d.Obj].Kind != "arr" {
+				return Top(64, true)
+			}
+			if ok2 && it.St.Objs[s.Obj].Kind != "arr" {
+				ok2 = false
+			}
 			if ok1 && ok2 {
 				n := d.Len
 				if s.Len < n {
@@ -350,7 +356,7 @@ func (it *Interp) call(f *frame, x *ssa.Call) AnyVal {
 			switch p := a.(type) {
 			case SliceV:
 				o := it.St.Objs[p.Obj]
-				for i := 0; i < p.Len; i++ {
+				for i := 0; i < p.Len && o.Kind == "arr"; i++ {
 					o.Vals[p.Off+i] = Top(o.W, o.Sg)
 				}
 			}
